@@ -982,6 +982,7 @@ func (w *World) kpsNow() (map[string]Kp, string) {
 	for _, a := range w.C.Runners {
 		k, _ := w.proj(w.Nodes[a])
 		kps[a] = k
+		k.Synced = 0 // with a lag every round closes a block; that alone is not progress
 		sig.WriteString(sm.Canon(k))
 	}
 	sig.WriteString(sm.Canon(w.flagConfigs()))
